@@ -18,10 +18,11 @@ def run(tier, wd):
     if tier == "quick":
         plans = [("std", g.family(g.STD_PROG, 40, seed), ["x", "-", "--", "-a", "-ab", "-o", "-ov", "--out=w", "-e", "-z"], [[], ["-e"]], 3)]
     else:
-        plans = [("std", g.family(g.STD_PROG, 300, seed, depth=3), ["x", "-", "--", "-a", "-b", "-ab", "-o", "-ov", "-o=v", "--out", "-eu", "-z"], [[], ["-e"], ["-a", "-o"]], 3),
+        plans = [("std", g.family(g.STD_PROG, 300, seed, depth=3), ["x", "-", "--", "-a", "-b", "-ab", "-o", "-ov", "-o=v", "--out", "-eu", "-z", "--out="], [[], ["-e"], ["-a", "-o"]], 3),
                  ("long", g.family(g.STD_PROG, 60, seed + 1, depth=4), ["x", "--", "-ab", "-ov", "-o", "-e"], [[], ["-e"]], 5)]
-    a2 = ["x", "--", "--verbose", "-q", "-qs", "-sv", "--src=v", "--source", "-s", "--verbose=true"]
-    plans.append(("prog2", g.family(g.PROG2, 6 if tier == "quick" else 80, seed + 2), a2[:8] if tier == "quick" else a2, [[], ["-s"]], 3))
+    # (an option with an empty value, `--src=`, is malformed: not an occurrence)
+    a2 = ["x", "--", "--verbose", "-q", "-qs", "-sv", "--src=v", "--source", "--src=", "-s", "--verbose=true", "-s="]
+    plans.append(("prog2", g.family(g.PROG2, 6 if tier == "quick" else 80, seed + 2), a2[:9] if tier == "quick" else a2, [[], ["-s"]], 3))
     cnt = collections.Counter()
     nontrivial = set()
     for label, specs, alphabet, envsets, maxlen in plans:
